@@ -220,6 +220,15 @@ fn fire(log: &mut SinkLog, name: &'static str) {
     *log.fired.entry(name).or_insert(0) += 1;
 }
 
+/// EINTR as a file descriptor reports it (errno set) on even call numbers, as a kind-only error on odd ones.
+fn eintr(call: u32) -> io::Error {
+    if call % 2 == 0 {
+        io::Error::from_raw_os_error(libc::EINTR)
+    } else {
+        io::Error::new(io::ErrorKind::Interrupted, "simulated EINTR")
+    }
+}
+
 impl SimSink {
     /// One write call offering the concatenation of `parts` (one part for `write`, the gather list for
     /// `write_vectored`). The decision is taken on the total length; only the accepted prefix is copied.
@@ -260,7 +269,7 @@ impl SimSink {
             self.intr_left -= 1;
             ev(&mut log, Outcome::Interrupted);
             fire(&mut log, "interrupted");
-            return Err(io::Error::new(io::ErrorKind::Interrupted, "simulated EINTR"));
+            return Err(eintr(call));
         }
 
         // how many bytes may still be accepted before the byte-offset death
@@ -326,7 +335,7 @@ impl SimSink {
                 self.intr_left = k.saturating_sub(1);
                 ev(&mut log, Outcome::Interrupted);
                 fire(&mut log, "interrupted");
-                return Err(io::Error::new(io::ErrorKind::Interrupted, "simulated EINTR"));
+                return Err(eintr(call));
             }
             Some(Fault::Short1) => {
                 if n > 1 {
